@@ -22,8 +22,37 @@ def pristine():
               "exceptions", "datetimeoper", "main"):
         setattr(M, n, importlib.import_module("metomi.isodatetime." + n))
     assert not getattr(M.data, "__symx_marker__", False)
+    _printable(M.data)
     assert os.path.realpath(M.data.__file__).startswith(os.path.realpath(REPO)), M.data.__file__
     return M
+
+
+def _printable(data):
+    """replays describe values with str(); a point whose year needs expanded
+    digits that it was not built with cannot be printed by the library
+    (OverflowError).  For *describing* results only, fall back to a field dump
+    in that case; the fallback text still distinguishes different states."""
+    tp_str, rec_str = data.TimePoint.__str__, data.TimeRecurrence.__str__
+
+    def point_str(self, *a, **k):
+        try:
+            return tp_str(self, *a, **k)
+        except Exception as exc:
+            if a or k:
+                raise
+            tz = self._time_zone
+            return "<unprintable TimePoint (%s): %s tz=%s:%s>" % (type(exc).__name__, {
+                s_[1:]: getattr(self, s_, None) for s_ in self.__slots__
+                if s_ != "_time_zone" and getattr(self, s_, None) is not None}, tz._hours, tz._minutes)
+
+    def recurrence_str(self):
+        try:
+            return rec_str(self)
+        except Exception:
+            return "<recurrence R%s start=%s end=%s interval=%s>" % (
+                self._repetitions, self._start_point, self._end_point, self._duration)
+    data.TimePoint.__str__ = point_str
+    data.TimeRecurrence.__str__ = recurrence_str
 
 
 def main():
